@@ -86,6 +86,12 @@ prop("C20", stems=[], props=["Props/C20.v"], falsify=None, corr="corr_bus", corr
      technique="Coq proof by induction over operation histories on a hand-written executable model + differential correspondence with the implementation",
      explanation="bus/logger/node-gating theorems for all histories; correspondence on seeded histories")
 
+prop("C19", stems=[], props=["Props/C19.v"], falsify=None, corr="corr_conv", corr_budget={"quick": 150, "thorough": 4000},
+     level_text="Kernel-checked theorems about a hand-written model of sympy_to_casadi (integers, rationals, binary floats as exact dyadics, Half, symbols, n-ary Add/Mul as the code's left folds, Pow with the Half -> sqrt special case, sin/cos/tan/atan, user functions through f_dict, everything else unsupported): whenever the conversion succeeds the CasADi tree evaluates to the same value as the SymPy tree at every environment and for every interpretation of the user functions and of pow; unsupported constructs and unknown function heads yield an error, never an altered expression; the symbol table is only extended and never binds a name twice. Tie to the code: differential correspondence on grammar-generated SymPy trees (non-integer and negative floats, nested powers, user functions, a malformed stream): success/raise, final symbol table and values at random points of the real converter vs the model (vm_compute), plus the real result vs SymPy's own evaluation. casadi_to_sympy is NOT modelled in Coq: random CasADi expressions incl. matrices, comparisons, selections, min/max, == are converted and evaluated against CasADi (exploration). Known findings: fmod and remainder are mapped to sympy.Mod forms that differ for negative operands. The cse=True path and sympy Matrix inputs are outside the model.",
+     level_note="Trusted: Coq kernel; stdlib real-number axioms (evaluation is over R); the model is MODELLED, not verified code: its link to cyecca/symbolic.py is the bounded random correspondence only.",
+     technique="Coq proof by structural induction on a hand-written executable model + differential correspondence with the implementation",
+     explanation="meaning preservation of the SymPy->CasADi converter for all expression trees of the modelled grammar")
+
 prop("C16", stems=["Quadrotor"], props=["Props/C16.v"], falsify="falsify_C16",
      level_text="Kernel-checked theorems over the regenerated real-number model of quadrotor.derive_model(): q.qdot=0, quaternion and position kinematics, hover equilibrium, free-fall accelerometer, rotor-sum wrench (Euler and Newton equations), motor first-order law, translation and yaw equivariance, for ALL states, inputs and parameter vectors (parameters are symbolic). Not proved: the exponential closed-form motor response (only the ODE right-hand side), drag-on branch of the force sum.",
      level_note=GEN_NOTE + "Numeric search on the real functions (harness/falsify_C16.py) supports replay generation only.",
